@@ -51,6 +51,15 @@ def run(ctx, replay):
                                           invariants=inv), "rate-asis-ttl-at-creation", expect="AdmissionBound")
     vlib.mc(ctx, "MC_Rate", vlib.make_cfg(constants=RC.consts(["s1", "s2"], [[(2, 1, 3)]], 1, 1, [1], [1, 2], 8, 16, pot=True),
                                           invariants=inv), "rate-unqualified-capacity", expect="AdmissionBound")
+    # unbounded histories (Apalache): Mnow <= max(Debt + P, 0) is inductive for refill/consume/advance and implies the bound
+    for (P, A, B) in ([(4, 2, 3), (10, 1, 5)] if quick else [(4, 2, 3), (10, 1, 5), (6, 3, 7), (60, 5, 25), (1, 1, 1), (12, 4, 20)]):
+        ci = "P = %d /\\ A = %d /\\ B = %d /\\ MaxAdv = 40 /\\ NoCheckpoint = FALSE" % (P, A, B)
+        tag = "%d-%d-%d" % (P, A, B)
+        vlib.apalache(ctx, "TokenBucketInd", "tb-base-" + tag, "CInit", "Init", "IndInv", 0, cinit_def=ci)
+        vlib.apalache(ctx, "TokenBucketInd", "tb-step-" + tag, "CInit", "IndInit", "IndInv", 1, cinit_def=ci)
+        vlib.apalache(ctx, "TokenBucketInd", "tb-implies-" + tag, "CInit", "IndInit", "Bound", 0, cinit_def=ci)
+    vlib.apalache(ctx, "TokenBucketInd", "tb-step-mutant", "CInit", "IndInit", "IndInv", 1, expect_ok=False,
+                  cinit_def="P = 6 /\\ A = 3 /\\ B = 7 /\\ MaxAdv = 40 /\\ NoCheckpoint = TRUE")
     scs = scenarios(ctx)
     execute(ctx, scs, "c03", ["C03."])
     return vlib.finish(ctx, "model_checking",
